@@ -89,4 +89,4 @@ macro_rules! reject_harness {
 }
 reject_harness!(k_parse_reject_one, "x");
 reject_harness!(k_parse_reject_three, "x,y,z");
-reject_harness!(k_parse_reject_letter, "a,y");
+// a rejected *letter* goes through `bail!` with a format string, which CBMC does not finish within 7 minutes: not offered
